@@ -13,7 +13,7 @@ import (
 func init() {
 	eng.Register(&eng.Check{
 		ID: "C06",
-		Rule: "E1 bounded product for quantifiers: collection shapes ([]interface{}, [N]interface{}, []map, []struct, []*struct, []int, []string, map[string]interface{}, map[string]struct, nested lists/maps) of length 0..4 (thorough 0..5) with EVERY assignment of {T,F,E} to the elements' body outcome x any/all x 4 binding modes x 4 name choices (fresh, shadowing a top-level field, same name twice) x body templates (binding as root, as prefix, via JSON pointer, index/key, unused, mixed, negated) x nesting up to 3, plus non-iterables; oracles: (a) reference interpreter, (b) unrolling on the implementation: for value aliases over lists `any S as x {P(x)}` == `P(S.0) or ... or P(S.n-1)` (all: conjunction) by syntactic substitution. Distinct by construction; non-trivial = the collection selector resolved to an iterable with >=1 element (the fold ran).",
+		Rule: "E1 bounded product for quantifiers: collection shapes ([]interface{}, [N]interface{}, []map, []struct, []*struct, []int, []string, map[string]interface{}, map[string]struct, nested lists/maps) of length 0..4 (thorough 0..5) with EVERY assignment of {T,F,E} to the elements' body outcome, plus lengths 8, 9, 17, 33 with the decisive / erroring element at first, middle, last position x any/all x 4 binding modes x 4 name choices (fresh, shadowing a top-level field, same name twice) x body templates (binding as root, as prefix, via JSON pointer, index/key, unused, mixed, negated) x nesting up to 3, plus non-iterables; oracles: (a) reference interpreter, (b) unrolling on the implementation: for value aliases over lists `any S as x {P(x)}` == `P(S.0) or ... or P(S.n-1)` (all: conjunction) by syntactic substitution. Distinct by construction; non-trivial = the collection selector resolved to an iterable with >=1 element (the fold ran).",
 		Assumptions: []string{"reference interpreter as in C01 (map iteration order unspecified when an element errors and another is decisive: both outcomes allowed, consistency is C14's business)"},
 		Run:         runC06,
 	})
@@ -258,6 +258,26 @@ func runC06(c *eng.Ctx) {
 	}
 	for si, sh := range shapes {
 		pats := patterns(sh.codes, maxLen)
+		// size boundaries (append growth steps 8/16/32): long collections with the decisive / erroring element at the
+		// first, middle, last position and in both orders
+		for _, n := range []int{8, 9, 17, 33} {
+			mk := func(fill int, at map[int]int) []int {
+				p := make([]int, n)
+				for i := range p {
+					p[i] = fill
+					if v, ok := at[i]; ok {
+						p[i] = v
+					}
+				}
+				return p
+			}
+			other := vE
+			if sh.codes == 2 {
+				other = vT
+			}
+			pats = append(pats, mk(vF, nil), mk(vT, nil), mk(vF, map[int]int{0: vT}), mk(vF, map[int]int{n / 2: vT}), mk(vF, map[int]int{n - 1: vT}), mk(vT, map[int]int{n - 1: vF}),
+				mk(vF, map[int]int{n - 2: other, n - 1: vT}), mk(vF, map[int]int{n - 2: vT, n - 1: other}), mk(vT, map[int]int{7: other}), mk(vT, map[int]int{n - 1: other}))
+		}
 		es := c06Exprs(sh, c.Thorough())
 		variants := 1
 		if c.Thorough() {
@@ -279,6 +299,9 @@ func runC06(c *eng.Ctx) {
 			}
 			unr := map[int]cached{}
 			for pi, pat := range pats {
+				if pi%16 == 0 && c.Expired() {
+					return
+				}
 				for variant := 0; variant < variants; variant++ {
 					if !c.Want("p", pi) || !c.Want("v", variant) {
 						continue
@@ -301,7 +324,8 @@ func runC06(c *eng.Ctx) {
 						continue
 					}
 					c.Count(SetStr(got.class))
-					if x.unroll && len(pat) > 0 {
+					// (the unrolled form nests one parenthesis level per element and the real parser's work grows ~4x per level)
+					if x.unroll && len(pat) > 0 && len(pat) <= 5 {
 						u, ok := unr[len(pat)]
 						if !ok {
 							u.src = Render(unrolled(x.q, x.valName, len(pat)))
